@@ -52,9 +52,14 @@ func H06b_one_subscription() {
 	}
 	granted := specMinQos(q, max)
 	vrtAssert("C06.granted_qos", rq == granted)
+	vrtAssert("C06.at_most_once", len(subs) <= 1)
+	if specHasEmptyLevel(F) || specHasEmptyLevel(T) {
+		// names with empty levels: the library's known treatment (known finding) - exactly that, nothing else
+		vrtAssert("C06.empty_levels_exactly_the_known_deviation", (len(subs) == 1) == specMatch(specKnownDevFilter(F), specKnownDevTopic(T)))
+		vrtReach("C06.empty_level_names")
+	}
 	match := specMatch(F, T)
 	vrtAssert("C06.match_iff_spec", (len(subs) == 1) == match)
-	vrtAssert("C06.at_most_once", len(subs) <= 1)
 	if len(subs) == 1 {
 		vrtAssert("C06.subscriber_identity", subs[0] == interface{}(sub))
 		vrtAssert("C06.delivery_qos", qoss[0] == specMinQos(p, granted))
@@ -83,6 +88,10 @@ func H06a_splitter() {
 		return
 	}
 	c := vrtConcretize(cut)
+	if c == 0 {
+		// a leading empty level: the library's known treatment (known finding) is to hand it over as "+" - exactly that
+		vrtAssert("C06.empty_levels_exactly_the_known_deviation", vrtAnd(vrtBytesEq(lvl, []byte("+")), vrtBytesEq(rem, F[1:])))
+	}
 	if c < 0 {
 		vrtAssert("C06.split_last_level", vrtAnd(vrtBytesEq(lvl, F), len(rem) == 0))
 	} else {
